@@ -252,9 +252,14 @@ def _judge(ctx, c_enc1, c_enc2, c_enc3, c_enc4, c_enc6, cls, indirect):
         early_value = any(strip_ver(a).startswith("self.value.is_") and t for a, t in o.path.conds)
 
         # ---- [n] extended indirect: decided on self.value alone
-        if indirect and early_value and isinstance(add, Opq) and add.text.startswith("self.value"):
+        if indirect and early_value and (isinstance(add, Opq) and add.text.startswith("self.value") or isinstance(add, Ctor)):
             forms_reached.add("[n]")
             site = site0 + ":[n]"
+            if isinstance(add, Ctor) and add.args and re.fullmatch(r"<self\.value(@\d+)?\.int>", repr(add.args[0])):
+                for cc in (c_enc1, c_enc6):
+                    emit(cc, "finding", site + ":sign", "the address of [n] is rebuilt from the magnitude of the value (sign dropped)",
+                         "%s: extended indirect [expr] emits %s(self.value.int, ...): .int is the magnitude only, so an expression that comes out negative ([J-K]) is encoded as its "
+                         "absolute value" % (cls, add.cls), where)
             if post is None or post[1]:
                 emit(c_enc1, "undecided", site, "post-byte-not-constant", repr(kw.get("post_byte")), where)
             else:
@@ -707,6 +712,20 @@ def enc7(ctx, c):
                       "negative (S-20 with S = 16) is encoded as a positive offset" % (cn_, U(hits_[0])[:50]), repo.loc(rs_, hits_[0]))
         else:
             c.ok("%s.resolve_symbols:sign" % cn_, "resolved values are kept as resolved", repo.loc(rs_, rs_.node))
+    # the names that are NOT looked up as symbols in the offset position are the accumulator offsets the encoder knows (A, B, D): a longer list leaves a symbol called E, F
+    # or W unresolved; a shorter one looks an accumulator up in the symbol table
+    for cn_ in ("IndexedOperand", "ExtendedIndexedOperand"):
+        if not repo.has_cls(cn_) or "resolve_symbols" not in repo.cls(cn_).methods:
+            continue
+        rs_ = repo.cls(cn_).methods["resolve_symbols"]
+        for x in ast.walk(rs_.node):
+            if isinstance(x, ast.Compare) and len(x.ops) == 1 and isinstance(x.ops[0], (ast.NotIn, ast.In)) and U(x.left) == "self.left":
+                names_ = try_fold_(x.comparators[0], {**ctx.env, **ctx.self_env(cn_)}) if not isinstance(x.comparators[0], ast.Constant) else x.comparators[0].value
+                if isinstance(names_, (list, tuple, set, frozenset, str)) and "A" in names_:
+                    got_ = set(names_)
+                    c.check(got_ == {"A", "B", "D"}, "%s.resolve_symbols:accumulators" % cn_, "A, B, D are not looked up", "not looked up: %s" % sorted(got_),
+                            "%s.resolve_symbols leaves the offsets %s unresolved as accumulator names; translate() knows the accumulator offsets A, B and D only, so a symbol called %s "
+                            "is never replaced by its value and the statement is rejected or mis-encoded" % (cn_, sorted(got_), "/".join(sorted(got_ - {"A", "B", "D"})) or "-"), repo.loc(rs_, x))
     fn = repo.method("Operand", "create_from_str", inherited=False)
     where = repo.loc(fn, fn.node)
     order = []
@@ -909,6 +928,24 @@ def enc7(ctx, c):
                 break
         if folded is None:
             break
+    # the 16-bit width hint follows the is_16_bit flag and no other: the hint reaches every literal of the statement, index offsets included
+    try:
+        hints = {}
+        for label_, flags_ in (("16-bit immediate", {"is_16_bit": True}), ("other flags", {"is_16_bit": False})):
+            envh = dict(ctx.env)
+            envh.update({vparam: "$12", "instruction": True, "default_mode_extended": True})
+            for fl_ in ("is_16_bit", "is_lea", "is_special", "is_short_branch", "is_long_branch", "is_pseudo", "is_string_define", "is_multi_byte", "is_multi_word"):
+                envh["instruction.%s" % fl_] = flags_.get(fl_, fl_ != "is_16_bit" and fl_ not in ("is_string_define", "is_pseudo", "is_multi_byte", "is_multi_word"))
+            fin_ = {}
+            fold_body(pre, envh, final=fin_)
+            hints[label_] = fin_.get("size_hint", "?")
+        if hints.get("16-bit immediate") != "?" and hints.get("other flags") != "?":
+            c.check(hints["16-bit immediate"] == 4 and hints["other flags"] is None, "Value.create_from_str:width-hint", "size_hint 4 for is_16_bit instructions only",
+                    "size_hint %r for a 16-bit immediate instruction, %r for an instruction with other flags set (LEA, branches)" % (hints["16-bit immediate"], hints["other flags"]),
+                    "Value.create_from_str derives the width hint as %r / %r: only the instructions with a 16-bit immediate ask for 16-bit literals; a hint on LEAX or a branch widens "
+                    "its constant index offset, which is emitted behind an 8-bit post byte" % (hints["16-bit immediate"], hints["other flags"]), wc)
+    except (NotConst, Raised, Exception):
+        pass
     if folded and all(EAMP + k in ctx.env for k in ("EXPLICIT_DIRECT", "EXPLICIT_EXTENDED", "IMMEDIATE", "EXTENDED", "NONE")):
         for ch, md in want.items():
             for dme in (True, False):
